@@ -333,3 +333,47 @@ def classify(ret, provs):
         if dfs(k0):
             defects.add("cycle")
     return defects, (ret in s2)
+
+# ------------------------------------------------------------------------------------------------ E dumps
+
+ECALL = re.compile(r"^([PF][\w.?]*)\((.*?)\)->\((.*?)\)(!?)(.*)$")
+
+def parse_ecall(tok):
+    m = ECALL.match(tok)
+    if not m:
+        raise ValueError("bad e-call token %r" % tok)
+    head, args, rets, bang, rest = m.groups()
+    A = []
+    for a in [x for x in args.split(",") if x]:
+        kind = ""
+        mm = re.match(r"^(.*?)(W\[.*\]\??|W\??(?:body)?|w)$", a)
+        val = a
+        if mm and not re.match(r"^A\d+$", a) and not re.match(r"^P\d+\.\d+$", a) and not re.match(r"^F\.\w+$", a):
+            val, kind = mm.group(1), mm.group(2)
+        A.append(dict(val=val, wait=kind))
+    Rs = [dict(used=r.startswith("r"), chan=r.endswith("c")) for r in rets.split(",") if r]
+    return dict(head=head, args=A, rets=Rs, fallible=bang == "!", odd=rest, tok=tok)
+
+def parse_edump(line):
+    if not line.startswith("OK "):
+        return None
+    m = re.match(r"^OK err=(\w+) args=\[(.*?)\] main=\[(.*?)\] go=\[(.*?)\] ret=(\S+) egwait=(\w+)(.*)$", line)
+    if not m:
+        raise ValueError("bad e-dump line %r" % line)
+    err, args, main, go, ret, eg, rest = m.groups()
+    threads = [[parse_ecall(t) for t in main.split()]]
+    if go.strip():
+        for g in go.split("|"):
+            threads.append([parse_ecall(t) for t in g.split()])
+    return dict(err=err == "true", args=[int(x) for x in args.split(",") if x.strip()], threads=threads, ret=ret, egwait=eg, odd=rest.strip())
+
+def k_conditions(E):
+    """the decidable side conditions that are false of current output and define the known findings"""
+    main, gos = E["threads"][0], E["threads"][1:]
+    main_ctx_wait = any(a["wait"].startswith("W") for c in main for a in c["args"])
+    go_fallible = any(c["fallible"] for th in gos for c in th)
+    go_wait = any(a["wait"] for th in gos for c in th for a in c["args"])
+    main_fallible_with_chan = any(c["fallible"] for c in main) and bool(gos)
+    return dict(K6=main_ctx_wait and go_fallible,            # main ctx-aware wait + fallible goroutine call
+                K7=(not E["err"]) and go_wait,                 # no error result + a goroutine that waits
+                K8=main_fallible_with_chan and go_wait)        # main-thread fallible call + goroutine waits
